@@ -129,22 +129,30 @@ class CHECK(core.Check):
                "parameter `Std`; the driver instantiates it with the results recorded from the implementation's own calls",
                "oracle: RFC 3986 section 5.2 reference resolution + unquote_to_bytes/parse_qsl of CPython for target equivalence",
                "fix patches assumed applied: fixes/D34a, D34b, D34c, D34d (the model describes the repaired redirect())"]
-    PARTIAL = ["C34_target_resolved_partial: exact request target only under the stated urllib.parse laws (hypotheses) "
-               "and outside lossyLocation (known finding D34e)",
-               "not modelled: request headers other than Host, json/form bodies (C30), Respondent byte-level parsing "
-               "(only 'how many body bytes are awaited'), evented (SSE) responses, real TLS, IPv6 literals, IDNA hosts"]
-    TECHNIQUE = ("Lean 4 theorems over a message-level state machine (invariants by induction over histories; symbolic "
-                 "execution of redirect() with urllib.parse as parameters) + differential correspondence against the real "
-                 "client over socket-pair doubles with recorded standard-library results")
-    LEVEL_TEXT = ("Proved on the model for all histories and all standard-library behaviours: an https client never opens "
-                  "or uses a non-TLS connection (C34_never_downgrades), a redirect replaces the connection iff resolved "
-                  "address, port or scheme differ (C34_reconnect_iff_authority_differs), one request is sent per followed "
-                  "redirect and the final response carries the redirect responses in arrival order with .responses growing "
-                  "by one (C34_chain_in_order). Partial: the exact request target (C34_target_resolved_partial) assumes "
-                  "laws of urlsplit/urljoin/quote/unquote as hypotheses.")
-    LEVEL_NOTE = ("Trusted: Lean kernel; axioms propext, Classical.choice, Quot.sound; hand transcription of clienting.py "
-                  "(as repaired by fixes/D34a-d) validated by the correspondence runs; CPython urllib.parse; the socket-pair "
-                  "and DNS doubles; byte-level response parsing is exercised (real Respondent) but not modelled.")
+    PARTIAL = ["C34_target_resolved_partial: the exact request target (quote(path)?query) is proved under three laws of "
+               "urllib.parse stated as hypotheses; that CPython's unquote/urljoin/urlsplit map the Location text to that "
+               "path and query is outside Lean: false on the region lossyLocation (known finding D34e, "
+               "C34_target_counterexample), exercised by the correspondence runs elsewhere",
+               "not modelled: request headers other than Host (a user supplied Host header is assumed absent), json/form "
+               "bodies (C30), byte-level response parsing (the real Respondent is exercised; the model keeps only 'how many "
+               "body bytes are awaited'), evented (SSE) responses, real TLS handshakes, IPv6 literals, IDNA host names, "
+               "responses that arrive while no request is outstanding"]
+    TECHNIQUE = ("Lean 4 theorems over a message-level state machine (invariants by induction over histories; case analysis "
+                 "of redirect() with urllib.parse as a parameter) + differential correspondence against the real client over "
+                 "socket-pair doubles with the recorded standard-library results as the model's parameter")
+    LEVEL_TEXT = ("Proved on the model, for all histories and for every behaviour of urllib.parse/DNS: a client on https never "
+                  "opens or uses a non-TLS connection, also not before an exception (C34_never_downgrades; C34_no_downgrade: "
+                  "ValueError and nothing sent); a followed redirect replaces the connection iff resolved address, port or "
+                  "scheme differ and sends exactly one request either way (C34_reconnect_iff_authority_differs, "
+                  "C34_same_authority_same_connection, C34_followed_request: method kept, body dropped, Host of the new "
+                  "authority); after redirects rs and a final response f .responses grows by exactly one entry carrying rs in "
+                  "arrival order, .redirects is empty again, one request per redirect, one delivery (C34_chain_in_order). "
+                  "Partial: the exact request target (C34_target_resolved_partial) assumes laws of urlsplit/quote as "
+                  "hypotheses; C34_target_counterexample is the recorded defect D34e.")
+    LEVEL_NOTE = ("Trusted: Lean kernel; axioms propext, Classical.choice, Quot.sound; the hand transcription of clienting.py "
+                  "(as repaired by fixes/D34a-d) validated only by the correspondence runs; CPython's urllib.parse (a parameter "
+                  "of the model, instantiated from recorded calls); the socket-pair, DNS and 'TLS flag' doubles; the stub "
+                  "servers; byte-level response parsing is exercised (real Respondent) but not modelled.")
 
     def __init__(self):
         self._trace = {}
@@ -738,8 +746,10 @@ class CHECK(core.Check):
 
     # ------------------------------------------------------------------ bookkeeping
     def nontrivial(self, case, out):
-        n_red = sum(1 for op in case["ops"] if op["op"] == "resp" and op["status"] in REDIRECT)
-        return n_red > 0 and out and out[-1].startswith("final") and " R " in out[-1] and not out[-1].startswith("final 1 0 0")
+        """at least one redirect was followed (a request sent in answer to a response) and a final response delivered"""
+        followed = any(op["op"] == "resp" and "send " in l and "deliver" not in l
+                       for op, l in zip(case["ops"], out[1:]))
+        return followed and out[-1].startswith("final") and " R " in out[-1]
 
     def bucket(self, case, out):
         n_red = sum(1 for op in case["ops"] if op["op"] == "resp" and op["status"] in REDIRECT)
